@@ -257,6 +257,10 @@ theorem C08_fresh_envelope_delivers_once :
       some ([1], [7], [1], [7], false) := by
   decide
 
+/-- When a link dies the calls in flight get `utils.ErrClosed` — not the cause handed to `Close` (the user-supplied read / decode function's error, whose text differs per API and serializer): the receive function's closed-signal case returns ErrClosed and nothing else (checked against the regenerated skeleton). -/
+theorem C08_in_flight_calls_fail_uniformly :
+    Skeleton.current.bcRecvSelectsDone = true ∧ Skeleton.current.bcReceiveErrorsOnlyClosed = true := by decide
+
 end Panrpc.St
 
 #print axioms Panrpc.St.C08_envelope_fresh_per_frame
@@ -274,3 +278,4 @@ end Panrpc.St
 #print axioms Panrpc.St.C08_envelope_written_has_one_member
 #print axioms Panrpc.St.decoder_finishes_if_readers_stay
 #print axioms Panrpc.St.decoder_wedges_on_pinned
+#print axioms Panrpc.St.C08_in_flight_calls_fail_uniformly
